@@ -356,7 +356,14 @@ class Models:
         if isinstance(v, Enum):
             ex.force(v)
             return self.mk_iter([v.f[0]] if v.variant in ('Some', 'Ok') else [])
-        raise Unsupported('into_iter of %s' % type(v).__name__)
+        if isinstance(v, Struct) and v.name in ('Range', 'RangeInclusive') and len(v.f) >= 2 and isinstance(v.f[0], Sc):
+            lim = getattr(ex, 'range_limit', 16)
+            lo = ex.concretize(v.f[0], 0, lim + 1, 'range start')
+            hi = ex.concretize(v.f[1], 0, lim + 1, 'range end')
+            if v.name == 'RangeInclusive':
+                hi += 1
+            return self.mk_iter([mk_int(i, v.f[0].ty) for i in range(lo, hi)])
+        raise Unsupported('into_iter of %s' % (v.name if isinstance(v, Struct) else type(v).__name__))
 
     def drain(self, ex, it, limit=64):
         out = []
@@ -775,6 +782,64 @@ class Models:
             x = v.items.pop(i)
             return Some(x) if info.self_ty_head == 'VecDeque' else x
 
+        @M.path(VECS, ['drain'])
+        def _vec_drain(ex, args, info):
+            v = deref(args[0])
+            r = args[1]
+            n = len(v.items)
+            lo, hi = 0, n
+            if isinstance(r, Struct):
+                nm = r.name or ''
+                if nm == 'Range':
+                    lo = ex.concretize(r.f[0], 0, n + 1, 'drain start'); hi = ex.concretize(r.f[1], 0, n + 1, 'drain end')
+                elif nm == 'RangeFrom':
+                    lo = ex.concretize(r.f[0], 0, n + 1, 'drain start')
+                elif nm == 'RangeTo':
+                    hi = ex.concretize(r.f[0], 0, n + 1, 'drain end')
+            out = v.items[lo:hi]
+            del v.items[lo:hi]
+            return M.mk_iter(out)
+
+        @M.path(VECS, ['split_off'])
+        def _vec_split_off(ex, args, info):
+            v = deref(args[0])
+            k = ex.concretize(args[1], 0, len(v.items) + 1, 'split_off')
+            out = VecM(v.items[k:], v.kind)
+            del v.items[k:]
+            return out
+
+        @M.path(VECS, ['dedup'])
+        def _vec_dedup(ex, args, info):
+            v = deref(args[0])
+            out = []
+            for x in v.items:
+                if out and ex.branch(M.val_eq(ex, out[-1], x)):
+                    continue
+                out.append(x)
+            v.items[:] = out
+            return Unit()
+
+        @M.path(VECS, ['rotate_left', 'rotate_right'])
+        def _vec_rotate(ex, args, info):
+            v = deref(args[0])
+            n = len(v.items)
+            k = ex.concretize(args[1], 0, n + 1, 'rotate')
+            if info.method == 'rotate_right':
+                k = (n - k) % n if n else 0
+            v.items[:] = v.items[k:] + v.items[:k]
+            return Unit()
+
+        @M.path(MAPS, ['retain'])
+        def _map_retain(ex, args, info):
+            mp = deref(args[0])
+            keep = []
+            for k, c in list(mp.entries):
+                r = ex.call_value(args[1], [Ptr(Cell(k)), Ptr(c)])
+                if ex.branch(r.t):
+                    keep.append([k, c])
+            mp.entries[:] = keep
+            return Unit()
+
         @M.path(VECS, ['clear'])
         def _vec_clear(ex, args, info):
             deref(args[0]).items[:] = []
@@ -991,6 +1056,9 @@ class Models:
         @M.trait('Iterator', 'next')
         def _next(ex, args, info):
             it = deref(args[0])
+            if isinstance(it, Struct) and it.name in ('Range', 'RangeInclusive') and isinstance(args[0], Ptr):
+                it = M.as_iter(ex, it)
+                args[0].store(it)
             if not isinstance(it, IterM):
                 raise Unsupported('Iterator::next on %s' % type(it).__name__)
             return it.nextf(ex)
